@@ -7,7 +7,7 @@ import tablecheck
 # route paths the operations of the KMGate table drive (prefix match)
 COVERED = ["/profile/", "/users/", "/admin/addUser", "/admin/deleteUser", "/admin/newBoostrapOTP",
            "/api/v0/manageU2FToken", "/api/v0/manageTOTPToken", "/u2f/RegisterRequest/", "/webauthn/RegisterRequest/",
-           "/totp/GenerateNew/", "/certgen/", "/idp/oauth2/authorize", "/showAuthToken", "/u2f/SignRequest",
+           "/totp/GenerateNew/", "/certgen/", "/idp/oauth2/authorize", "/showAuthToken", "/sendAuthDocument", "/u2f/SignRequest",
            "/webauthn/AuthBegin/", "/api/v0/vipPushStart", "/v1/getRoleRequestingCert", "/v1/refreshRoleRequestingCert"]
 # public by design (no credential needed, covered by C04/C12/C05 where they consume tokens)
 PUBLIC = ["/api/v0/login", "/api/v0/logout", "/public/", "/static/", "/static/compiled/", "/custom_static/",
